@@ -83,6 +83,8 @@ def viter_case(rng, kind, little=True):
         data[0:size] = elfgen.pack(kind, 0, little, first)
         count, start = rng.choice([2, 3, n + 5, 0xffff]), 0
     c = "viter %s %s %d %d %d %s | all | nexts %d" % (kind, "le" if little else "be", rng.choice((32, 64)), count, start, hx(data), n + 3)
+    import props.C09 as C09
+    c += " | %s" % C09.walk_script(rng, min(n, 4))      # provided Iterator methods (count / last / nth / ...) on the same chain
     if kind == "verdaux":            # the names iterator over the same chain (public constructor)
         c += " | names %s" % hx(bytes(rng.choice([0, 0x41, 0x42, 0xc3, 0xa9, 0xff]) for _ in range(rng.choice([0, 1, 4, 12, 40]))))
     _counts[c] = (count, len(data))
